@@ -91,6 +91,22 @@ func (c *C12Case) payload() []byte {
 		if p := padTo(c12BaseXML(c.Kind), c.Size); p != nil {
 			return p
 		}
+	case "valid-utf8-padded":
+		// a trailing comment of multi-byte characters (2, 3 and 4 bytes long in turn, so that characters straddle
+		// every power-of-two offset somewhere): the inflated text is cut into buffers at byte offsets, not at characters
+		base := c12BaseXML(c.Kind)
+		if need := c.Size - int64(len(base)) - 7; need >= 0 {
+			out := make([]byte, 0, c.Size)
+			out = append(append(out, base...), "<!--"...)
+			units := []string{"\u00e9", "\u20ac", "\U0001F600", "\u00df\u4e2d"}
+			for i := 0; int64(len(out))+int64(len(units[i%4])) <= c.Size-3; i++ {
+				out = append(out, units[i%4]...)
+			}
+			for int64(len(out)) < c.Size-3 {
+				out = append(out, 'p')
+			}
+			return append(out, "-->"...)
+		}
 	case "valid-ws-padded":
 		// trailing white space after the root: every prefix that contains the whole root is itself a
 		// complete document, so a decoder that silently truncates at the limit would accept it
@@ -172,7 +188,7 @@ func genC12(t *rapid.T) C12Case {
 	if c.Size > capSize {
 		c.Size = capSize
 	}
-	c.Payload = rapid.SampledFrom([]string{"valid-padded", "valid-padded", "valid-ws-padded", "run", "valid-nul-padded", "valid-ff-padded", "valid-bom-padded"}).Draw(t, "payload")
+	c.Payload = rapid.SampledFrom([]string{"valid-padded", "valid-padded", "valid-ws-padded", "run", "valid-nul-padded", "valid-ff-padded", "valid-bom-padded", "valid-utf8-padded", "valid-utf8-padded"}).Draw(t, "payload")
 	if rapid.IntRange(0, 5).Draw(t, "envelope") == 0 {
 		c.Envelope = rapid.SampledFrom([]string{"zlib", "gzip"}).Draw(t, "envelopeKind")
 	}
@@ -398,6 +414,9 @@ func TestC12_Grid(t *testing.T) {
 				}
 				cases = append(cases, C12Case{Limit: l, Size: rel.s, Payload: "valid-padded", Kind: kind, Level: 6, Relation: rel.n})
 				cases = append(cases, C12Case{Limit: l, Size: rel.s, Payload: "valid-ws-padded", Kind: kind, Level: 1, Relation: rel.n})
+				if L >= 8*1024 && (L != defaultLimit || kind == "response") {
+					cases = append(cases, C12Case{Limit: l, Size: rel.s, Payload: "valid-utf8-padded", Kind: kind, Level: []int{6, 0, 9, 1}[len(cases)%4], Relation: rel.n})
+				}
 				if L != defaultLimit {
 					cases = append(cases, C12Case{Limit: l, Size: rel.s, Payload: "valid-nul-padded", Kind: kind, Level: 6, Relation: rel.n})
 				}
@@ -419,6 +438,12 @@ func TestC12_Grid(t *testing.T) {
 						C12Case{Limit: l, Size: bomb, Payload: "valid-padded", Kind: kind, Level: 6, Relation: "bomb", Envelope: env})
 				}
 			}
+		}
+	}
+	for i, n := range []int64{4096, 8192, 16384, 32768, 65536, 131072, 262144} {
+		for d := int64(-2); d <= 3; d++ {
+			kind := []string{"response", "LogoutRequest", "LogoutResponse"}[(i+int(d)+2)%3]
+			cases = append(cases, C12Case{Limit: 0, Size: n + int64(len(c12BaseXML(kind))) + 7 + d, Payload: "valid-utf8-padded", Kind: kind, Level: []int{6, 0, 9}[i%3], Relation: "small"})
 		}
 	}
 	for _, l := range []int64{math.MaxInt64, math.MaxInt64 - 1, 1 << 62, 1 << 33} {
